@@ -3,6 +3,15 @@
 // (Verus unit `fragment` proves the same contracts unbounded; this unit still decides when an edit removes the statement
 // a proof hint was anchored on, and its counterexamples are concrete.)
 #![allow(dead_code, unused_variables, unused_mut)]
+// `tracing::level!(..)` written with its path by an edit keeps compiling (log statements have no effect on the checks)
+pub mod tracing {
+    macro_rules! trace { ($($t:tt)*) => { () } }
+    macro_rules! debug { ($($t:tt)*) => { () } }
+    macro_rules! info { ($($t:tt)*) => { () } }
+    macro_rules! warn_ { ($($t:tt)*) => { () } }
+    macro_rules! error { ($($t:tt)*) => { () } }
+    pub(crate) use {trace, debug, info, warn_ as warn, error};
+}
 
 pub trait Buf { fn remaining(&self) -> usize; }
 pub struct LenBuf(pub usize);
